@@ -1,5 +1,4 @@
-"""translator whitelist for C19: the per-channel bin computation of histogram::fill (`ch = ch / bin_width`, carried out in
-std::size_t) for every channel type of the harness, and the two expressions of the dense pre-fill loop (detail::filler<1>)"""
+"""translator whitelist for C19: the per-channel bin computation of histogram::fill (`ch = ch / bin_width`) for every channel type of the harness, and the two expressions of the dense pre-fill loop (detail::filler<1>)"""
 from cxx2lean import Sym
 H = "boost/gil/histogram.hpp"
 CT = {"u8": "uint8_t", "i8": "int8_t", "u16": "uint16_t", "i16": "int16_t"}
@@ -7,12 +6,12 @@ SYMS = []
 for s, S in CT.items():
     # the body of the lambda `[&](channel_t& ch) { ch = ch / bin_width; }` as a mutator of `ch` (a named temporary is fine)
     SYMS.append(Sym(H, r"static_for_each\(scaled_px, \[&\]\(channel_t& ch\)", "scale_%s" % s, [("ch", S), ("bin_width", "std::size_t")], ret=None,
-                    outputs=["ch"], subst=[(r"auto const", "std::size_t"), (r"\bauto\b", "std::size_t")],
-                    doc="histogram::fill: `ch = ch / bin_width` for channel type %s (the division is carried out in std::size_t)" % S))
+                    outputs=["ch"], subst=[(r"static_cast<channel_t>", "static_cast<%s>" % S), (r"auto const", "std::ptrdiff_t"), (r"\bauto\b", "std::ptrdiff_t")],
+                    doc="histogram::fill: `ch = ch / bin_width` for channel type %s (signed division since fix 1570f66)" % S))
 for t, T in (("int", "int"), ("u8", "uint8_t")):
     SYMS.append(Sym(H, r"for \(auto i = std::get<0>\(lower\); (static_cast<std::size_t>\(std::get<0>\(upper\) - i\) >= bin_width); i \+= bin_width\)",
                     "prefill_cond_%s" % t, [("i", T), ("upper", T), ("bin_width", "std::size_t")], ret="bool", expr=True,
                     subst=[(r"std::get<0>\(upper\)", "upper")], doc="detail::filler<1>: loop condition, key type %s" % T))
-    SYMS.append(Sym(H, r"hist\((i / bin_width)\) = 0;", "prefill_key_%s" % t, [("i", T), ("bin_width", "std::size_t")], ret=T, expr=True,
-                    doc="detail::filler<1>: key that is reset inside the loop, key type %s" % T))
+    SYMS.append(Sym(H, r"hist\((i / width)\) \+= 0;", "prefill_key_%s" % t, [("i", T), ("width", "std::ptrdiff_t")], ret=T, expr=True,
+                    doc="detail::filler<1>: key that is created inside the loop (width = static_cast<std::ptrdiff_t>(bin_width)), key type %s" % T))
 NAMESPACE = "GilVerif.Gen.C19"
